@@ -12,6 +12,7 @@ import Rsbdd.Model.Gen.Sudoku
 import Rsbdd.Model.Gen.SudokuText
 import Rsbdd.Model.Gen.Graph
 import Rsbdd.Model.Gen.GraphText
+import Rsbdd.Model.Gen.CsvInput
 import Rsbdd.Spec.Puzzles
 
 namespace Rsbdd
@@ -398,6 +399,27 @@ def handleC18 (fields : List String) : Verdict :=
   match fields with
   | ["gen", _, _, _, _, "ok", "UNREADABLE"] =>
     { modelOk := false, modelOut := "an edge list", oracle := some "the output is not an edge list of the requested format" }
+  | ["read", u, rawHex, cls, outHex] =>
+    -- the bytes of an edge-list file and what --convert printed for it: the model's reader of the file
+    -- (`CsvInput.readEdges`, Thm/C16I), the model's conversion, the model's text
+    match unhexStr rawHex, unhexStr outHex with
+    | some raw, some outp =>
+      if raw.toList.contains '"' then { modelOk := true, info := some "csv-input.quoted-field-outside-the-model" } else
+      match CsvInput.readEdges raw.toList with
+      | none =>
+        -- a record without exactly two fields: the tools stop (an error of the csv reader, or the assertion on the
+        -- number of fields)
+        { modelOk := cls != "ok", modelOut := "refused", nontrivial := true,
+          oracle := if cls == "ok" then some "an edge list with a record that does not have two fields was converted without complaint" else none }
+      | some es =>
+        let inp := es.map (fun e => (String.ofList e.1, String.ofList e.2))
+        let m := (Graph.readGraph inp (u == "1")).map (fun p => (p.1.toList, p.2.toList))
+        let want := GraphText.csvText m
+        if cls != "ok" then { modelOk := false, modelOut := "ok", oracle := some s!"--convert failed ({cls}) on a well-formed edge list" } else
+        let same := outp.toList == want
+        { modelOk := same, modelOut := String.ofList want, nontrivial := es.length > 1,
+          oracle := if same then none else some s!"--convert does not reproduce the edge list of the file: it printed {repr outp}, the list is {repr (String.ofList want)}" }
+    | _, _ => Verdict.badLine "unreadable read line"
   | ["convert", _, _, "ok", "UNREADABLE"] =>
     { modelOk := false, modelOut := "an edge list", oracle := some "the --convert output is not an edge list" }
   | ["text", form, u, harnessPairs, rawHex, input] =>
